@@ -17,26 +17,38 @@ logging.disable(logging.CRITICAL)
 
 
 class InertThread:
-    """Replacement for StoppableThread: never runs anything by itself."""
+    """Replacement for StoppableThread: never runs anything by itself.
+    `stop()` is remembered for good (`stop_requested`); the synchronous pumps
+    end a worker's loop through the separate `pause` flag."""
     instances: list = []
 
     def __init__(self, group=None, target=None, name=None, args=(), kwargs=None, *, daemon=None):
         self.target = target
-        self.is_stopped = False
+        self.stop_requested = False
+        self.pause = False
         self.started = False
+        self.crashed = False
         InertThread.instances.append(self)
+
+    @property
+    def is_stopped(self):
+        return self.stop_requested or self.pause
+
+    @is_stopped.setter
+    def is_stopped(self, v):
+        self.pause = bool(v)
 
     def start(self):
         self.started = True
 
     def stop(self):
-        self.is_stopped = True
+        self.stop_requested = True
 
     def join(self, timeout=None):
         pass
 
     def is_alive(self):
-        return self.started and not self.is_stopped
+        return self.started and not self.stop_requested and not self.crashed
 
 
 class Livelock(BaseException):
